@@ -89,6 +89,27 @@ def run(ctx):
         if nm.endswith('.lz') and len(bb) < 100000: cases.append((bb, 'file ' + nm, LZIP))
     # run
     by_cmd = {}
+    # .lz dictionary size codes with a fraction: members written by the model encoder whose farthest match lies exactly at,
+    # one beyond, and well beyond the size the code stands for (2^b - f * 2^(b-4)): valid, invalid, invalid
+    edge_l, edge_m = [], []
+    for b2 in ((12, 13) if ctx.quick() else (12, 13, 14, 15)):
+        for fr in ((1, 7) if ctx.quick() else (1, 2, 3, 5, 7)):
+            D = (1 << b2) - fr * (1 << (b2 - 4))
+            lits = bytes(rng.getrandbits(8) for _ in range(D + 40))
+            for dist in (D, D + 1, D + (fr << (b2 - 5)), D - 1):
+                toks = ['L%d' % x for x in lits] + ['M%d,%d' % (dist - 1, 6), 'L33']
+                edge_l.append('lzmaenc 3 0 2 ' + ' '.join(toks))
+                hist = bytearray(lits)
+                for _q in range(6): hist.append(hist[len(hist) - dist])
+                hist.append(33)
+                edge_m.append((b2 | (fr << 5), bytes(hist), dist, D))
+    eo_, ef_ = run_lines(orc, edge_l)
+    if ef_: raise BuildError('oracle failed %r' % (ef_[0],))
+    for (dc, dat, dist, D), hx in zip(edge_m, eo_):
+        stream = bytes.fromhex(hx)
+        body = b'LZIP' + bytes([1, dc]) + stream + struct.pack('<I', zlib.crc32(dat)) + struct.pack('<Q', len(dat))
+        body += struct.pack('<Q', len(body) + 8)
+        cases.append((body, 'lz dict-code-edge code=%d dictionary=%d farthest-match=%d' % (dc, D, dist), LZIP[:2]))
     for ci, (blob, lab, runs) in enumerate(cases):
         for (k, fl, oc) in runs:
             by_cmd.setdefault((k, fl, oc), []).append(ci)
